@@ -376,7 +376,15 @@ def run(ctx):
     if rmi is None or s_rel is None:
         ctx.undecided('C15.U1', cg, 'flat index np.ravel_multi_index((.., .., ..), <counts>.shape) not recognised')
     else:
-        e0, e1, e2 = rmi.args[0].elts
+        def xp(x, depth=0):
+            """One level of local aliasing made transparent (`ci, cj = a[:-s][m], a[s:][m]`): a name with a single definition stands for that expression when it is a
+            subscript chain (the role patterns are written on the relabelled array itself)."""
+            if depth < 2 and isinstance(x, ast.Name):
+                ds = cg.defs().get(x.id, [])
+                if len(ds) == 1 and ds[0][0] == 'assign' and isinstance(ds[0][1], ast.Subscript) and not ds[0][3]:
+                    return ds[0][1]
+            return x
+        e0, e1, e2 = (xp(x_) for x_ in rmi.args[0].elts)
         early = lambda x: P.m('V_rel[:-V_shift][V_m]', x) or P.m('V_rel[:len(V_rel) - V_shift][V_m]', x)
         late = lambda x: P.m('V_rel[V_shift:][V_m]', x)
         lagv = lambda x: (P.m('V_d', x) and P.stmt('V_d = V_lag[V_m]') is not None) or P.m('V_lag[V_m]', x)
@@ -385,6 +393,28 @@ def run(ctx):
         tri('C15.U1', rmi, good, bad, 'flat index = (cluster of the earlier spike, cluster of the later spike, lag) in the shape of the count array',
             'the flat index is `%s`: the roles (earlier cluster, later cluster, lag of later minus earlier) are misplaced' % unparse(rmi.args[0])[:110],
             'components of the flat index not recognised')
+        # every accumulation into the count array goes through such a flat index: a further site whose cluster roles are swapped counts a pair in the REVERSE direction too,
+        # so a one-sided zero-lag count (and, after symmetrisation, the centre bin = max of the two) gets more than the pairs of that direction
+        def role(x, depth=0):
+            x = xp(x) if depth == 0 else xp(x)
+            if early(x):
+                return 'early'
+            if late(x):
+                return 'late'
+            if depth < 3 and isinstance(x, ast.Subscript) and not isinstance(x.slice, ast.Slice):
+                return role(x.value, depth + 1)
+            return None
+        sites = [c_ for c_ in cg.calls() if (dotted(c_.func) or '').endswith('ravel_multi_index') and c_.args and isinstance(c_.args[0], ast.Tuple) and len(c_.args[0].elts) == 3]
+        extra = [c_ for c_ in sites if c_ is not rmi]
+        for c_ in extra:
+            r0, r1 = role(c_.args[0].elts[0]), role(c_.args[0].elts[1])
+            if (r0, r1) == ('late', 'early'):
+                ctx.violated('C15.U1', cg, c_, 'a second accumulation uses the flat index `%s` with the clusters of the later and earlier spike swapped: those pairs are counted in the reverse '
+                             'direction as well, so C[j, i, lag] exceeds the number of pairs with the spike of j first' % unparse(c_.args[0])[:90])
+            elif (r0, r1) == ('early', 'late'):
+                ctx.undecided('C15.U1', cg, 'a second accumulation into the count array with the same roles (`%s`): whether pairs are counted twice is not decided' % unparse(c_.args[0])[:70], c_)
+            else:
+                ctx.undecided('C15.U1', cg, 'a second accumulation into the count array whose index components were not recognised (`%s`)' % unparse(c_.args[0])[:70], c_)
     ds = repo.func(CCG, '_diff_shifted')
     PD = Pat(ds)
     a_, st_ = ds.params[0], ds.params[1]
